@@ -36,6 +36,11 @@ class ContinueSig(Exception):
     pass
 
 
+class InstanceOutsideDomain(Exception):
+    """The entry assumptions of a (receiver class, finite-instantiation instance) pair are contradictory: the pair is not
+    in the domain (e.g. a width that the class invariant of the receiver class excludes); it is skipped and reported."""
+
+
 class PathEnd(Exception):
     """The current path ends here (loop step case proved, or an assumption made the path infeasible)."""
 
@@ -144,6 +149,7 @@ class Ctx:
         self.top_contract = None
         self.top_ns = None
         self.ysym = None  # symbolic sequence of yields (generators with yields inside invariant loops)
+        self.guards: List[Any] = []  # reachability guards: (kind, pc, axioms, decisions) at the end of a path
         self.entry_measure = None
 
     # ---- fresh symbols
@@ -245,6 +251,8 @@ class FunctionResult:
         self.entry_axioms = None
         self.normal_paths = 0
         self.raising_paths = 0
+        self.guards: List[Any] = []  # (function tag, kind, pc, axioms, decisions): see runner path guards
+        self.skipped_instances: List[str] = []  # (class, instance) pairs whose entry assumptions are contradictory
 
 
 class Engine:
@@ -444,6 +452,9 @@ class Engine:
         fields = {}
         for n, k in self.all_field_kinds(cls).items():
             fields[n] = ctx.fresh_kind("self." + n, k)
+            # closed world, as for parameters: the dynamic class of an object-valued field (and of the elements of a
+            # sequence-valued one) is one of the repository's instantiable subclasses of its declared class
+            self.assume_wellformed(ctx, fields[n])
         return Obj(cls, True, ref, fields, ctx)
 
     def isinstance_of(self, ctx: Ctx, v, cls) -> Any:
@@ -843,12 +854,18 @@ class Engine:
             ctx = Ctx(self, contract.qualname + tagsuffix, prefix)
             try:
                 self._run_path(ctx, finfo, contract, cls, inst, res)
+            except InstanceOutsideDomain:
+                res.skipped_instances.append(tagsuffix or "<default>")
+                res.paths -= 1
+                return
             except PathEnd:
                 pass
             except EngineLimit as e:
                 res.limits.append("%s (path %s)" % (e, ctx.taken))
             except RecursionError:
                 res.limits.append("interpreter recursion limit")
+            for g in ctx.guards:
+                res.guards.append((ctx.func,) + tuple(g))
             for ob in ctx.obligations:
                 key = (ob.name, tuple(x.get_id() for x in ob.pc), ob.goal.get_id(), len(ob.axioms))
                 if key in res._seen:
@@ -1030,6 +1047,15 @@ class Engine:
             for label, c in self.run_spec(ctx, lambda: contract.clauses("definitions", ns)):
                 ctx.assume(lift_bool(c))  # defining equation of a ghost predicate (see Contract.definitions)
         ctx.entry_len = len(ctx.pc)
+        if res is not None and not ctx.prefix and (inst is not None or (cls is not None and cls is not finfo.cls)):
+            # first path of a finite-instantiation instance / receiver class: is the pair in the domain at all?
+            s_ = z3.Solver()
+            s_.set("timeout", 500)
+            for p_ in ctx.pc:
+                if not has_quantifier(p_):
+                    s_.add(p_)
+            if s_.check() == z3.unsat:
+                raise InstanceOutsideDomain()
         if res is not None and res.entry_pc is None:
             res.entry_pc = list(ctx.pc)
             res.entry_axioms = list(ctx.axioms)
@@ -1063,7 +1089,11 @@ class Engine:
         except PyRaise as pr:
             if res is not None:
                 res.raising_paths += 1
+            n0 = len(ctx.obligations)
             self._check_raise(ctx, contract, ns, pr.exc)
+            if not any(o.kind == "noraise" for o in ctx.obligations[n0:]):
+                # an exception the contract expects: the path that raises it must be reachable (an unexpected one must not)
+                ctx.guards.append(("raise:%s" % pr.exc.clsname, list(ctx.pc), list(ctx.axioms), list(ctx.taken)))
             return
         if isinstance(result, OptV) and not isinstance(result.is_none, bool):
             if not self.feasible(ctx, result.is_none):
@@ -1092,6 +1122,7 @@ class Engine:
                 if label in contract.inv_exempt:
                     continue
                 ctx.oblige("%s/inv#%s" % (short(ctx.func), label), lift_bool(inv), kind="inv")
+        ctx.guards.append(("return", list(ctx.pc), list(ctx.axioms), list(ctx.taken)))
 
     def _owns_state(self, cls) -> bool:
         for c in cls.mro():
